@@ -214,13 +214,25 @@ type c01Effect struct {
 	At     *core.CallSite
 	G      *core.FuncInfo
 	Eff    *core.CallSite
+	// Up: the view in which Caller itself is seen, when Caller is not the anchor of the rule but a
+	// helper of it (nil: Caller is the anchor). Lets a question asked two calls down translate its
+	// operands step by step into the anchor's terms.
+	Up *c01Effect
+}
+
+// up: the view of e.Caller (the direct view when Caller is the anchor).
+func (e c01Effect) up() c01Effect {
+	if e.Up != nil {
+		return *e.Up
+	}
+	return c01Effect{Caller: e.Caller, G: e.Caller}
 }
 
 func c01Effects(caller *core.FuncInfo, pred func(*core.CallSite) bool) []c01Effect {
 	var out []c01Effect
 	for _, cs := range caller.Calls() {
 		if pred(cs) {
-			out = append(out, c01Effect{caller, cs, caller, cs})
+			out = append(out, c01Effect{Caller: caller, At: cs, G: caller, Eff: cs})
 			continue
 		}
 		fn, ok := cs.Callee.(*types.Func)
@@ -233,7 +245,7 @@ func c01Effects(caller *core.FuncInfo, pred func(*core.CallSite) bool) []c01Effe
 		}
 		for _, hs := range h.Calls() {
 			if pred(hs) {
-				out = append(out, c01Effect{caller, cs, h, hs})
+				out = append(out, c01Effect{Caller: caller, At: cs, G: h, Eff: hs})
 			}
 		}
 	}
@@ -329,7 +341,9 @@ func (e c01Effect) callerExpr(x ast.Expr) (ast.Expr, bool) {
 }
 
 // direct: the same site seen as an effect of the caller itself.
-func (e c01Effect) direct() c01Effect { return c01Effect{e.Caller, e.At, e.Caller, e.At} }
+func (e c01Effect) direct() c01Effect {
+	return c01Effect{Caller: e.Caller, At: e.At, G: e.Caller, Eff: e.At}
+}
 
 // callerRecv: x denotes a call v.<method>() — in e.G on (an alias of) a parameter, or in the caller's
 // argument that x stands for; returns the caller's variable that v stands for.
